@@ -151,6 +151,8 @@ func layoutSource(n int, ctx string, layout []string) string {
 			if L%3 == 2 {
 				// ordinary words that start like a compiler directive ("// go: ..." with a space is none)
 				fmt.Fprintf(&b, "%s// go: c%d\n", ind, L)
+			} else if L%3 == 0 {
+				fmt.Fprintf(&b, "%s// host:port c%d\n", ind, L)
 			} else {
 				fmt.Fprintf(&b, "%s// c%d\n", ind, L)
 			}
@@ -331,7 +333,7 @@ func (commentsFam) ExecAll(cases []core.CaseIn, seed int64, emit func(c core.Cas
 
 func (commentsFam) Rand(n int, rng *rand.Rand, emit func(cas any)) error {
 	// long random tag-line lists with custom markers, and long layouts
-	alpha := []rune(" +@=kvxyz\"#-_:/")
+	alpha := []rune(" +@=kvxyz\"#-_:/\u5e2b\u0140\u4e2b")
 	for i := 0; i < n; i++ {
 		nl := 1 + rng.IntN(6)
 		lines := [][]int{}
